@@ -3491,6 +3491,13 @@ class Inflate(Array):
 
     def _intbounds_impl(self):
         lower, upper = self.func._intbounds
+        if not (isinstance(self.dofmap, Constant) and _ismonotonic(numpy.sort(self.dofmap.value, axis=None))):
+            # The dofmap may contain duplicate indices, in which case the
+            # corresponding elements of `func` are added up.
+            if lower < 0:
+                lower = float('-inf')
+            if upper > 0:
+                upper = float('inf')
         return min(lower, 0), max(upper, 0)
 
     def _argument_degree(self, argument):
